@@ -3,7 +3,7 @@
 (* Generators for C47 over the Estimator state machine.                    *)
 (*                                                                         *)
 (* Mode "wm" (InitWM / NextWM): every Grab/Free history of MaxEvents calls *)
-(*   on a WireResourceManager, for every configuration in Cfgs (zeroed,    *)
+(*   on a WireResourceManager, for every configuration in WMCfgs (zeroed,  *)
 (*   any-state, algorithmic wires, tight budget); a raising call leaves    *)
 (*   the state unchanged and the history goes on.  Each maximal history is *)
 (*   emitted with the expected bookkeeping after every call.               *)
@@ -18,12 +18,13 @@
 (*   adjoint / control do not change counts).                              *)
 (***************************************************************************)
 EXTENDS Estimator, Json
-CONSTANTS Cfgs,        \* set of [z, a, algo, tight, gs]   (gs: set of composite names that are in the gate set)
+CONSTANTS WMCfgs,      \* "wm": set of [z, a, algo, tight, gs]
+          WFCfgs,      \* "wf": set of [z, a, algo, tight, gs]   (gs: set of composite names that are in the gate set)
           Amounts,     \* "wm": the n of a call
           MaxEvents,   \* "wm": calls per history
           Terms,       \* "wf": set of terms
           MaxLen,      \* "wf": terms per workflow
-          Names        \* "wf": all leaf and composite names
+          Names        \* "wf": all leaf and composite names (= DOMAIN Width)
 VARIABLES ph, cfg, wf, hist, pc, wm, counts, err, log
 vars == <<ph, cfg, wf, hist, pc, wm, counts, err, log>>
 
@@ -32,7 +33,7 @@ View(s) == [z |-> s.z, a |-> s.a, algo |-> s.algo, total |-> TotalWires(s)]
 CfgOut == [z |-> cfg.z, a |-> cfg.a, algo |-> cfg.algo, tight |-> cfg.tight, gs |-> cfg.gs]
 
 \* ------------------------------------------------------------------ mode "wm"
-InitWM == /\ cfg \in Cfgs /\ ph = "wm" /\ wf = <<>> /\ hist = <<>> /\ pc = 0 /\ err = "" /\ log = <<>>
+InitWM == /\ cfg \in WMCfgs /\ ph = "wm" /\ wf = <<>> /\ hist = <<>> /\ pc = 0 /\ err = "" /\ log = <<>>
           /\ wm = WM0(cfg.z, cfg.a, cfg.algo, cfg.tight) /\ counts = ZeroCounts
 Call(op, n) ==
   LET ok == IF op = "grab" THEN GrabOK(wm, n) ELSE FreeOK(wm, n)
@@ -45,7 +46,7 @@ NextWM == /\ ph = "wm" /\ pc < MaxEvents
 EmitWM == IF ph = "wm" /\ pc = MaxEvents THEN PrintT(ToJson([cfg |-> CfgOut, calls |-> log])) ELSE TRUE
 
 \* ------------------------------------------------------------------ mode "wf"
-InitWF == /\ cfg \in Cfgs /\ ph = "pick" /\ \E t \in Terms : wf = <<t>>
+InitWF == /\ cfg \in WFCfgs /\ ph = "pick" /\ \E t \in Terms : wf = <<t>>
           /\ hist = <<>> /\ pc = 0 /\ err = "" /\ log = <<>>
           /\ wm = WM0(cfg.z, cfg.a, 0, cfg.tight) /\ counts = ZeroCounts
 Extend == /\ ph = "pick" /\ Len(wf) < MaxLen /\ \E t \in Terms : wf' = Append(wf, t)
@@ -72,12 +73,16 @@ NonNeg      == NonNegS(wm)
 TotalGeAlgo == TotalGeAlgoS(wm)
 Accounted   == AccountedS(wm)
 \* counts of a sequence = sum of the counts of its parts (checked when a run finished without an allocation error)
-Additive == (Finished /\ err = "") => \A g \in Names : counts[g] = DenSeq(wf, g, cfg.gs)
+Additive == (Finished /\ err = "") => counts = DenSeq(wf, cfg.gs)
 \* repetition multiplies; adjoint and control keep the counts; a product is the sum of its factors
 TermLaws == ph # "pick" \/ Len(wf) # 1 \/
-  LET x == wf[1]  GS == cfg.gs IN \A g \in Names :
-    /\ DenCount(Pow(x, 3), g, GS) = 3 * DenCount(x, g, GS)
-    /\ DenCount(Prod(<< <<x, 2>>, <<x, 1>> >>), g, GS) = 3 * DenCount(x, g, GS)
-    /\ DenSeq(<<x, x>>, g, GS) = 2 * DenCount(x, g, GS)
-    /\ (GS = {} => DenCount(Adj(x), g, GS) = DenCount(x, g, GS) /\ DenCount(Ctrl(x, 1), g, GS) = DenCount(x, g, GS))
+  LET x == wf[1]  GS == cfg.gs  v == TLCEval(DenVec(x, GS))  v3 == TLCEval(VecScale(3, v)) IN
+    /\ DenVec(Pow(x, 3), GS) = v3
+    /\ DenVec(Prod(<< <<x, 2>>, <<x, 1>> >>), GS) = v3
+    /\ DenSeq(<<x, x>>, GS) = VecScale(2, v)
+    /\ (GS = {} => DenVec(Adj(x), GS) = v /\ DenVec(Ctrl(x, 1), GS) = v)
+
+\* both modes in one run
+InitAll == InitWM \/ InitWF
+NextAll == NextWM \/ NextWF
 =============================================================================
